@@ -147,6 +147,10 @@ class Gen:
         if r.random() < 0.7:
             p = r.choice(["i", "x", "a"])
             head = p
+        elif r.random() < 0.3:
+            # a third parameter is never bound when the arrow function is applied
+            p, q, t3 = r.choice(["i", "x"]), r.choice(["j", "y"]), r.choice(["c", "t", "z"])
+            return f"({p}, {q}, {t3})", self.path(0, root=r.choice([p, t3, t3]))
         else:
             p = r.choice(["i", "x"])
             q = r.choice(["j", "y"])
@@ -406,7 +410,13 @@ def show(nodes: list[tuple], r: Any) -> str:
                         "{% comment %}" + n[2] + "{% endcomment %}"][n[1]])
         elif k == "liq":
             lines = show_lines(n[1], 1)
-            out.append("{% liquid\n" + "\n".join(lines) + "\n%}")
+            k_ = r.random()
+            if k_ < 0.6:
+                out.append("{% liquid\n" + "\n".join(lines) + "\n%}")
+            elif k_ < 0.8:       # the tag is closed on the line of its last statement
+                out.append("{% liquid\n" + "\n".join(lines) + r.choice([" %}", " -%}", "%}"]))
+            else:                # ... and opened on the line of its first
+                out.append("{% liquid " + "\n".join(lines).lstrip() + r.choice([" %}", "\n%}"]))
         elif k == "t":
             a, b = wc(r)
             out.append("{%" + a + " " + n[1] + " " + n[2] + " " + b + "%}")
@@ -1439,10 +1449,15 @@ def span_findings(eng: Engine, a: dict[str, Any]) -> list[tuple[str, str, dict]]
                     ok = bool(re.fullmatch(r"\{%[-+~]?\s*raw\s*[-+~]?%\}.*\{%[-+~]?\s*endraw\s*[-+~]?%\}", got, re.S))
                 elif m and m.group(1) == name and got.count("{%") == 1:
                     ok = True
-                elif re.fullmatch(re.escape(name) + r"\b[^\n]*", got) and "{%" not in got:
+                elif re.fullmatch(re.escape(name) + r"\b[^\n]*", got) and "{%" not in got and "%}" not in got:
                     ok = True   # a line statement inside {% liquid %}
                 elif name == "liquid" and m and m.group(1) == "liquid":
                     ok = True
+            if not ok and got and "{%" not in got and re.fullmatch(re.escape(name) + r"\b[^\n]*?\s*[-+~]?%\}", got):
+                bad("span-liquid-last-line-swallows-close",
+                    f"line statement {name!r} that shares its line with the end of the liquid tag is reported with a span that "
+                    f"runs over the closing delimiter: {got!r}", sp[0], sp, name)
+                continue
             if not ok:
                 rest = RE_COMMENT_PREFIX.sub("", got or "", count=1)
                 m2 = re.fullmatch(r"\{%[-+~]?\s*([\w]+)\b.*?%\}.*", rest, re.S) if got else None
@@ -1521,7 +1536,7 @@ def binding_structure(eng: Engine) -> tuple[set[str], dict[str, set[str]]]:
     def ex(e: Any) -> None:
         if isinstance(e, tuple):
             if e and e[0] == "lam":
-                hard.update(e[1])
+                hard.update(e[1][:2])
             for x in e:
                 ex(x)
         elif isinstance(e, list):
@@ -1594,7 +1609,15 @@ def scope_findings(eng: Engine, a: dict[str, Any], run: dict[str, Any]) -> list[
     for i, e in enumerate(evs):
         if e[0] == "L" and i + 1 < len(evs) and evs[i + 1][:2] == ("G", e[1]):
             x, loc = e[1], eng.tok_owner.get(e[2])
-            if loc is None or x in hard or x not in under or loc[0] in under[x]:
+            if loc is None or x in hard or x not in under or (x, loc) in glob_locs:
+                continue
+            if loc[0] in under[x]:
+                # a template that is handed x by one tag and used without x by another:
+                # it is analysed once (`seen`), in the scope of the first tag that loads it
+                out.append(("partial-analysed-once-in-first-scope",
+                            f"{x!r} in partial {loc[0]!r} at {loc[1]}..{loc[2]} read the global namespace in a use of the partial "
+                            "that does not bind it; the partial was analysed once, in the scope of a tag that does, so it is not "
+                            "reported as a global", {"name": x, "location": loc}))
                 continue
             if (x, loc) not in glob_locs:
                 out.append(("partial-argument-leaks-into-outer-scope",
@@ -1732,7 +1755,7 @@ def bound_names(eng: Engine) -> set[str]:
     def ex(e: Any) -> None:
         if isinstance(e, tuple):
             if e and e[0] == "lam":
-                out.update(e[1])
+                out.update(e[1][:2])     # map() binds the item and the index only
             for x in e:
                 ex(x)
         elif isinstance(e, list):
@@ -1967,6 +1990,9 @@ WITNESSES = [
     ("implicit-context-lookup", {"main": "{% translate %}Hello{% endtranslate %}"}, {"z": 1}),
     ("implicit-context-lookup", {"main": "{{ 1 | money }}"}, {"z": 1}),
     ("for-else-sees-loop-variable", {"main": "{% for x in l %}{{ x }}{% else %}{{ x }}{{ forloop }}{% endfor %}"}, {"l": [], "x": 1, "forloop": 2}),
+    ("partial-analysed-once-in-first-scope", {"main": "{% render 'badge', label: 'new' %}{% render 'badge' %}", "badge": "[{{ label }}]"}, {"label": 1}),
+    ("lambda-extra-parameter-treated-as-bound", {"main": "{{ items | map: (item, index, total) => total | join: ',' }}"}, {"items": [1, 2], "total": 3}),
+    ("span-liquid-last-line-swallows-close", {"main": "{% liquid assign x = 1\n echo x -%}{% liquid echo y %}"}, {}),
     ("capture-reads-own-name", {"main": "{% capture x %}[{{ x }}]{% endcapture %}{{ x }}"}, {"x": 1}),
     ("translate-context-arg-treated-as-bound", {"main": "{% translate context: 'c', who: w %}Hello {{ who }} {{ context }}{% endtranslate %}"}, {"context": 1, "w": 2}),
     ("macro-body-sees-definition-scope", {"main": "{% for x in l %}{% macro m %}{{ x }}{% endmacro %}{% call m %}{% endfor %}"}, {"l": [1], "x": 1}),
@@ -2062,7 +2088,12 @@ def observe_witness(sig: str, templates: dict[str, str], data: dict[str, Any]) -
             if s_ == sig:
                 return f"{templates[root]!r}: {what}"
         return None
-    found = usage_findings(eng, a, run, bound_names(eng)) + occurrence_findings(eng, a, run)
+    found = usage_findings(eng, a, run, bound_names(eng)) + occurrence_findings(eng, a, run) + scope_findings(eng, a, run)
+    if sig == "lambda-extra-parameter-treated-as-bound":
+        for s, what, info in found:
+            if s == "global-unreported" and info.get("name") == "total":
+                return f"{templates[root]!r}: the third parameter of an arrow function is never bound by map(); {what}"
+        return None
     if sig == "seen-ignores-loader-tag":
         for s, what, info in found:
             if s == "variable-unreported" and info.get("name") == "ren":
